@@ -94,6 +94,10 @@ async fn checkpoint_update_git<'a>(
                 pending.insert(change.name.clone(), file::get_file_checksum(&p).await?);
             }
             checkpoint.pending = Some(pending);
+        } else {
+            // Nothing is pending now: drop what an earlier `update --pending` recorded, or its
+            // stale entries keep hiding those paths when they change back to the recorded content.
+            checkpoint.pending = None;
         }
     }
     checkpoint.save()?;
